@@ -32,6 +32,8 @@ def param_sets(tier):
     for dg in range(7 if q else 11):
         for dom in ((1.0, 0.5, 3.0) if q else (1.0, 0.5, 3.0, 2.0)):
             out.append(('Legendre', {'degree': dg, 'domain': dom}))
+    for dg in ((15, 20, 30) if q else (12, 15, 20, 25, 30, 40)):
+        out.append(('Legendre', {'degree': dg, 'domain': 1.0, 'value_only': True}))     # high degrees: evaluation only (stable recurrence vs expanded monomials)
     for al in ((1, 0.5, -2, 3) if q else (1, 0.5, -2, 3, 0.1, -7.5)):
         out.append(('Sin', {'alpha': al})); out.append(('Cos', {'alpha': al}))
     for mu in ((0, 0.7, -1.3) if q else (0, 0.7, -1.3, 2.5)):
@@ -104,6 +106,37 @@ def run_case(case, seed):
     for v in special:
         q_ = np.array([0.37 - 0.2 * k for k in range(dim)], dtype=float); q_[idx] = v
         pts.append(q_)
+    # evaluation against the family's closed form (independent of the library): the derivatives below are then compared with
+    # derivatives of the library's own __call__
+    par = case['par']
+
+    def closed(t):
+        from numpy.polynomial import legendre as npleg
+        from scipy.interpolate import BSpline as SB
+        if fam == 'Constant':
+            return 1.0
+        if fam == 'Identity':
+            return t
+        if fam == 'Indicator':
+            return 1.0 if par['a'] <= t < par['b'] else 0.0
+        if fam == 'Monomial':
+            return par['prefactor'] * t ** par['exponent']
+        if fam == 'Legendre':
+            return npleg.legval(t / par['domain'], [0] * par['degree'] + [1])
+        if fam == 'Sin':
+            return np.sin(par['alpha'] * t)
+        if fam == 'Cos':
+            return np.cos(par['alpha'] * t)
+        if fam == 'Gauss':
+            return np.exp(-0.5 * (t - par['mean']) ** 2 / par['variance'])
+        return None
+    with r.op(key + ':call'):
+        for p_ in pts:
+            cv = closed(p_[idx])
+            if cv is not None:
+                r.true(key + ':value', abs(float(f(p_)) - cv) <= 1e-12 * max(1.0, abs(cv)), 'f(%s) = %r, closed form %r' % (p_, float(f(p_)), cv))
+    if par.get('value_only'):
+        return r
     analytic = fam not in ('Bspline', 'Indicator')
     no_d1 = fam == 'Indicator'
     no_d2 = fam in ('Indicator', 'PeriodicGauss', 'Bspline')
